@@ -3,6 +3,7 @@ package main
 // C16 — produce requests respect the configured size and count limits, and flush on time.
 
 import (
+	"fmt"
 	"go/token"
 
 	"golang.org/x/tools/go/ssa"
@@ -22,7 +23,7 @@ func init() {
 		Explain: "Decides with guard/path rules: the broker worker tests wouldOverflow(msg) before every buffer.add(msg) and waits for space when it holds (C16.check-before-add); wouldOverflow returns true on each of the three limit predicates, expressed as canonical comparisons over the buffer counters and the configuration (C16.limits); the dispatcher rejects a message whose size exceeds MaxMessageBytes instead of handing it on (C16.reject); " +
 			"readyToFlush is true on each configured trigger and false when empty, the output channel is enabled exactly under timerFired ∨ readyToFlush, the flush timer is armed after an add when Frequency > 0 and none is pending, and rollOver resets both (C16.flush). " +
 			"NOT covered: the byte-size estimate versus the real wire size (numeric), timing.",
-		Rules: []func(*Ctx){c16CheckBeforeAdd, c16Limits, c16Estimate, c16Reject, c16Flush, c04FormatGate},
+		Rules: []func(*Ctx){c16CheckBeforeAdd, c16Limits, c16Estimate, c16Reject, c16Flush, c04FormatGate, c01ErrLost},
 	})
 }
 
@@ -285,6 +286,36 @@ func c16Flush(c *Ctx) {
 	}
 	if nRepl == 0 {
 		c.Unresolved(rule, "replacement of bp.buffer by newProduceSet(…)")
+	}
+	// and conversely: the timer state is reset only where the buffer is replaced.  The timer belongs to the buffer as
+	// a whole; resetting it while messages (of other partitions) stay buffered leaves them without a trigger
+	nReset := 0
+	for _, f := range p.Fns {
+		if rootOf(f).Pkg != p.Sarama || p.Name(f) == "asyncProducer.newBrokerProducer" {
+			continue
+		}
+		reg := WholeFn(f)
+		for _, t := range []struct {
+			name string
+			ev   Ev
+		}{{"timer=nil", StoreTo(IsNil(), "brokerProducer.timer")}, {"timerFired=false", StoreTo(ConstBool(false), "brokerProducer.timerFired")}} {
+			for _, s := range Info(f).Find(t.ev) {
+				if s.Instr() == nil || s.Instr().Parent() != f {
+					continue
+				}
+				if _, isAlloc := fieldChain(s.In.(*ssa.Store).Addr)[0].base.(*ssa.Alloc); isAlloc {
+					continue
+				}
+				nReset++
+				before, _ := reg.Reach(IsItem(s), fresh)
+				after, path := reg.From(s.After()).Escape(fresh)
+				c.Check(before.IsZero() || !after, rule, f, "reset-only-with-replacement:"+t.name, s.Instr(), t.name+" only together with the replacement of bp.buffer",
+					t.name+" is executed on a path that does not replace bp.buffer: messages that stay in the buffer (other partitions of the same broker) lose their pending or fired flush timer and wait for further input — Flush.Frequency is not honoured, Close waits for them", path)
+			}
+		}
+	}
+	if nReset < 2 {
+		c.Unresolved(rule, fmt.Sprintf("resets of the flush timer state (found %d)", nReset))
 	}
 	if fn := c.NeedFn(rule, "brokerProducer.rollOver"); fn != nil {
 		reg := WholeFn(fn)
